@@ -224,6 +224,26 @@ def str_format(fmt: Val, arg: Val, node=None) -> Val:
                 buf += "%"
                 i += 2
                 continue
+            import re as _re
+
+            mm = _re.match(r"%(0?\d+)?([sdixX])", f[i:])
+            if mm and (mm.group(1) or mm.group(2) in "xX"):
+                # zero-padded / hexadecimal integer formats ("%03d", "%04X"): an uninterpreted (deterministic) function of the
+                # integer argument — the same symbol for the same spec everywhere; nothing but functionality is known about it
+                if k >= len(args):
+                    raise Unsupported("format arity", node)
+                a = args[k]
+                k += 1
+                if mm.group(2) == "s" or a.ty != T.INT:
+                    raise Unsupported(f"format spec {mm.group(0)} of {a.ty}", node)
+                if buf:
+                    parts.append(z3.StringVal(buf))
+                    buf = ""
+                conv = "d" if mm.group(2) == "i" else mm.group(2)
+                fn = z3.Function("fmt_" + (mm.group(1) or "") + conv, z3.IntSort(), z3.StringSort())
+                parts.append(fn(lift(a)))
+                i += len(mm.group(0))
+                continue
             if spec not in ("s", "d", "i"):
                 raise Unsupported(f"format spec %{spec} with a symbolic argument", node)
             if buf:
